@@ -20,6 +20,9 @@ def run(sid):
     if meta.get("superseded"):
         print("%-12s superseded (no longer breaks the property at HEAD; see its meta.json)" % sid, flush=True)
         return
+    if meta.get("needs_rebase"):
+        print("%-12s needs rebase (does not apply to /repo HEAD any more; see its meta.json)" % sid, flush=True)
+        return
     props = props_for(sid, meta)
     out = subprocess.run([os.path.join(ROOT, "tools/seedtest_wt.sh"), os.path.join(d, "patch.diff")] + props,
                          capture_output=True, text=True).stdout
